@@ -1246,3 +1246,107 @@ Proof.
   cbn [fst snd]. unfold mon_step. rewrite V. cbn [o_st okw Z.eqb negb o_wk].
   apply close_R; assumption.
 Qed.
+
+(* ---- subscribe (recent / at a position / by copy) ---- *)
+Lemma live_obj_put_same e s o na pa q : s_live o = true ->
+  live_obj (mkT q (put (objs e) s (Some o)) na pa) s = Some o.
+Proof. intros L. unfold live_obj. cbn [objs]. rewrite get_put_same, L. reflexivity. Qed.
+
+Lemma live_obj_put_other e s k o na pa q : s <> k ->
+  live_obj (mkT q (put (objs e) s (Some o)) na pa) k = live_obj e k.
+Proof. intros N. unfold live_obj. cbn [objs]. rewrite get_put_other by exact N. reflexivity. Qed.
+
+Lemma add_obj e m s t p lost regs' nf' h :
+  Inv e m -> get (objs e) s = None -> valid_mode t = true -> 0 <= p < HALF ->
+  (lost = false -> if t =? 0 then p <= npub m /\ npub m - p <= zlen (qd (pq e)) /\ npub m - p <= maxl (pq e)
+                   else p <= npub m) ->
+  r_used (rget (regs (pq e)) h) = false ->
+  rget regs' h = mkReg p (Z.of_nat s) None true false ->
+  (forall k, k <> h -> rget regs' k = rget (regs (pq e)) k) ->
+  (exists fl, freelist regs' nf' fl) ->
+  (NoDup (flat_map awt_of regs') /\ forall a, In a (flat_map awt_of regs') -> a < nawt e) ->
+  Inv (mkT (mkQ regs' nf' (qd (pq e)) (qpos (pq e)) (closed (pq e)) (minl (pq e)) (maxl (pq e)))
+           (put (objs e) s (Some (mkSo h t true false))) (nawt e) (palive e))
+      (set_sub m s (new_rec t p lost)).
+Proof.
+  intros I GN VM PR WN UN RH RO FL AW.
+  assert (MN : get (m_subs m) s = None) by (apply (i_none _ _ I); exact GN).
+  assert (NH : forall k o, live_obj e k = Some o -> s <> k /\ s_h o <> h).
+  { intros k o L. split.
+    - intros <-. apply live_obj_get in L as (L1 & _). congruence.
+    - intros E. destruct (inv_rec _ _ _ _ I L) as (r & Gr & _).
+      pose proof (i_sub _ _ I k o r L Gr) as (U & _). rewrite E in U. congruence. }
+  constructor; cbn [pq objs nawt palive regs next_free qd qpos closed minl maxl set_sub m_log m_closed m_subs m_min m_max].
+  - eapply Gq_same; [apply (i_g _ _ I)|reflexivity..].
+  - apply (i_mm _ _ I).
+  - apply (i_cl _ _ I).
+  - exact FL.
+  - exact AW.
+  - intros k. destruct (Nat.eq_dec s k) as [<-|N].
+    + rewrite get_put_same. rewrite get_put_same. split; discriminate.
+    + rewrite get_put_other by exact N. rewrite get_put_other by exact N. apply (i_none _ _ I).
+  - intros k o r G1 G2. destruct (Nat.eq_dec s k) as [<-|N].
+    + rewrite get_put_same in G1. rewrite get_put_same in G2. injection G1 as <-. injection G2 as <-. reflexivity.
+    + rewrite get_put_other in G1 by exact N. rewrite get_put_other in G2 by exact N. apply (i_live _ _ I k); assumption.
+  - intros k o r L G2. destruct (Nat.eq_dec s k) as [<-|N].
+    + rewrite live_obj_put_same in L by reflexivity. injection L as <-.
+      rewrite get_put_same in G2. injection G2 as <-. cbn [s_h]. rewrite RH.
+      unfold npub in *. cbn [set_sub m_log] in *.
+      unfold sub_ok, new_rec. splits; simp_rec; try reflexivity; try assumption; try lia.
+      intros _. unfold pos_ok. simp_rec. cbn [s_mode zlen length Z.of_nat last_pos] in *.
+      destruct (t =? 0) eqn:T0.
+      * clear - PR WN T0. intuition (try discriminate; try congruence; try lia).
+      * clear - PR WN T0. intuition (try discriminate; try congruence; try lia).
+    + rewrite live_obj_put_other in L by exact N. rewrite get_put_other in G2 by exact N.
+      destruct (NH k o L) as (_ & NE). rewrite RO by exact NE. apply (i_sub _ _ I k); assumption.
+  - intros s1 s2 o1 o2 L1 L2 E.
+    destruct (Nat.eq_dec s s1) as [<-|N1]; destruct (Nat.eq_dec s s2) as [<-|N2]; try reflexivity.
+    + rewrite live_obj_put_same in L1 by reflexivity. injection L1 as <-.
+      rewrite live_obj_put_other in L2 by exact N2. destruct (NH s2 o2 L2) as (_ & NE). cbn [s_h] in E. congruence.
+    + rewrite live_obj_put_same in L2 by reflexivity. injection L2 as <-.
+      rewrite live_obj_put_other in L1 by exact N1. destruct (NH s1 o1 L1) as (_ & NE). cbn [s_h] in E. congruence.
+    + rewrite live_obj_put_other in L1 by exact N1. rewrite live_obj_put_other in L2 by exact N2.
+      apply (i_inj _ _ I s1 s2 o1 o2); assumption.
+  - intros k U. destruct (Nat.eq_dec k h) as [->|N].
+    + exists s, (mkSo h t true false). split; [apply live_obj_put_same; reflexivity|reflexivity].
+    + rewrite RO in U by exact N. destruct (i_own _ _ I k U) as (s' & o' & L' & E').
+      exists s', o'. split; [|exact E']. destruct (NH s' o' L') as (NS & _). rewrite live_obj_put_other by exact NS. exact L'.
+Qed.
+
+Lemma subscribe_inv e m s t p lost :
+  Inv e m -> get (objs e) s = None -> valid_mode t = true -> 0 <= p < HALF ->
+  (lost = false -> if t =? 0 then p <= npub m /\ npub m - p <= zlen (qd (pq e)) /\ npub m - p <= maxl (pq e)
+                   else p <= npub m) ->
+  Inv (fst (new_sub e s t (subscribe_lk (pq e) (Z.of_nat s) p))) (set_sub m s (new_rec t p lost)) /\
+  snd (new_sub e s t (subscribe_lk (pq e) (Z.of_nat s) p)) =
+    ok3 (Z.of_nat (snd (subscribe_lk (pq e) (Z.of_nat s) p))) p 0.
+Proof.
+  intros I GN VM PR WN. unfold new_sub. cbn [fst snd].
+  pose proof (i_awt _ _ I) as (AN & AB). destruct (i_fl _ _ I) as (fl & FL).
+  unfold subscribe_lk. destruct (zlen (regs (pq e)) <=? next_free (pq e)) eqn:C; cbn [fst snd].
+  - (* a new slot *)
+    assert (FE : fl = [] /\ next_free (pq e) = zlen (regs (pq e))).
+    { destruct (freelist_head _ _ _ FL) as [X|(h & t' & _ & E & L)]; [exact X|]. unfold zlen in C. lia. }
+    split.
+    + apply add_obj; try assumption.
+      * apply (f_equal r_used (rget_beyond _ _ (le_n _))).
+      * apply rget_app_new.
+      * intros k N. destruct (Nat.lt_ge_cases k (length (regs (pq e)))) as [L|L].
+        -- apply rget_app_l. exact L.
+        -- rewrite !rget_beyond; [reflexivity|exact L|rewrite app_length; cbn; lia].
+      * exists []. replace (zlen (regs (pq e)) + 1) with (zlen (regs (pq e) ++ [mkReg p (Z.of_nat s) None true false]))
+          by (rewrite zlen_app; reflexivity). constructor.
+      * rewrite flat_map_app. cbn. rewrite app_nil_r. split; assumption.
+    + unfold pos_of. cbn [regs]. rewrite rget_app_new. reflexivity.
+  - (* a slot from the free list *)
+    destruct (freelist_head _ _ _ FL) as [(_ & X)|(h & t' & -> & E & L)]; [lia|].
+    rewrite E, Nat2Z.id.
+    inversion FL as [|h' t'' L' U' N' F' E1 E2]; subst.
+    split.
+    + apply add_obj; try assumption.
+      * apply rget_set_same. exact L.
+      * intros k N. apply rget_set_other. congruence.
+      * exists t'. apply freelist_set_other; assumption.
+      * apply awt_same_keep; try assumption. left. reflexivity.
+    + unfold pos_of. cbn [regs]. rewrite rget_set_same by exact L. reflexivity.
+Qed.
